@@ -5,6 +5,7 @@ completely are finite, structure-aware families (short strings, every truncation
 replacement of seed packets with checksum and tag re-sealed, boundary products for every length / count / offset
 field), each delivered to the real entry points in a set of protocol states reached by scripted prefixes.
 """
+import asyncio
 import itertools
 import os
 import signal
@@ -49,7 +50,22 @@ def limit_memory():
         resource.setrlimit(resource.RLIMIT_AS, (want, hard))
 
 
-def guarded(fn, *a, cpu=0.5):
+def confirmed_hang(fn, *a):
+    """A watchdog hit is only reported when the same input, on a fresh object, is still running after 10 s of CPU: a slow
+    moment (a garbage collection, a loaded machine) is not a hang.  Returns True when the hang is confirmed."""
+    HANGS["n"] = max(0, HANGS["n"] - 1)
+    kind, val = guarded(fn, *a, cpu=10.0)
+    if kind == "hang":
+        return True
+    t = val if kind == "ok" else None
+    if t is not None and hasattr(t, "done") and t.done() and not t.cancelled() and isinstance(t.exception(), Hang):
+        HANGS["n"] += 1
+        return True
+    HANGS["slow"] = HANGS.get("slow", 0) + 1
+    return False
+
+
+def guarded(fn, *a, cpu=1.0):
     """Run fn under a CPU-time watchdog. Returns (kind, value): ok / raised / hang."""
     if HANGS["n"] >= MAX_HANGS_PER_TASK:
         raise TooManyHangs()
@@ -150,6 +166,32 @@ def reseal(data):
     return data[0:8] + struct.pack("<L", crc32c(body)) + data[12:]
 
 
+class TaskTimeout(KeyboardInterrupt):
+    """Raised by the per-task CPU budget (KeyboardInterrupt subclass: asyncio tasks re-raise it instead of swallowing it)."""
+
+
+TASK_CPU = 300.0     # seconds of CPU per task; the heaviest task of the thorough tier needs well under a minute
+
+
+def _on_task_alarm(signum, frame):
+    raise TaskTimeout()
+
+
+def budgeted(T, what, fn, *a):
+    """The harness's own traffic (building a protocol state, sending valid frames afterwards) runs outside the per-datagram
+    watchdog; if THAT never ends - valid packets hanging the receive path - the check must say so instead of hanging too."""
+    signal.signal(signal.SIGPROF, _on_task_alarm)
+    signal.setitimer(signal.ITIMER_PROF, TASK_CPU, 5.0)
+    try:
+        return fn(*a)
+    except TaskTimeout:
+        T.violation("task/hangs|%s" % what.split("(")[0], "task/hangs",
+                    "%s used more than %d s of CPU: the harness's own valid traffic never completes" % (what, TASK_CPU),
+                    dict(kind="task", what=what))
+    finally:
+        signal.setitimer(signal.ITIMER_PROF, 0)
+
+
 def _capped(fn, task):
     """Runs a task; a task that has hit the hang budget stops early and says so (the violations are already recorded)."""
     limit_memory()
@@ -159,7 +201,7 @@ def _capped(fn, task):
     HANGS["n"] = 0
     T = Tally()
     try:
-        fn(task, T)
+        budgeted(T, "%s%r" % (fn.__name__, task), fn, task, T)
     except TooManyHangs:
         T.count("tasks-cut-short-after-%d-hangs" % MAX_HANGS_PER_TASK)
     return T
@@ -182,8 +224,10 @@ def _parsers_task(task, T):
         T.case(None)
         T.count("parser:" + name)
         kind, val = guarded(fn, data)
-        if kind == "hang":
-            T.violation("parser-hangs/%s" % name, "parser/hangs", "%s did not return within 0.5 s of CPU for %d bytes (%s)" % (name, len(data), desc),
+        if kind == "hang" and not confirmed_hang(fn, data):
+            T.count("slow-but-not-hung")
+        elif kind == "hang":
+            T.violation("parser-hangs/%s" % name, "parser/hangs", "%s did not return within 10 s of CPU for %d bytes (%s)" % (name, len(data), desc),
                         dict(kind="parser", target=name, data=data.hex()))
         elif kind == "raised" and not isinstance(val, ValueError):
             T.violation("parser-raises/%s/%s" % (name, type(val).__name__), "parser/unexpected-exception",
@@ -202,12 +246,16 @@ def _parsers_task(task, T):
 
 # ----------------------------------------------------------------------------- family S: SCTP transport in protocol states
 STATES = ["server-before-init", "client-cookie-wait", "client-cookie-echoed", "established-idle", "established-outstanding",
-          "established-reassembling", "established-reset-pending"]
+          "established-reassembling", "established-gap", "established-reset-pending"]
 
 
 def build_state(name):
     """Returns (world, victim side). The victim's _handle_data is the entry point."""
     spec = dict(setup="explored", channels=[C.chan("x", negotiated=0, scripted=True), C.chan("y", negotiated=1, scripted=True)], script=[], horizon=60.0)
+    name, _, origin = name.partition("@")
+    if origin == "wrap":
+        # both initial TSNs two below 2^32: every state's live TSNs (cumulative, outstanding, reassembly) straddle the wrap
+        spec["tsn"] = {"A": 2 ** 32 - 2, "B": 2 ** 32 - 2}
     w = SctpWorld(spec)
     w.faults_enabled = False
     if name == "server-before-init":
@@ -240,6 +288,14 @@ def build_state(name):
         first = [dg for dg in w.wire if dg.src == "A"][0]
         w.wire.remove(first)
         w._deliver(first)         # B holds the first fragment only
+        w.wire.clear()
+        return w, "B"
+    if name == "established-gap":
+        w._do_op(("send", "A", "x", C.pay("x", 0, 2500)))
+        w.loop.drain()
+        second = [dg for dg in w.wire if dg.src == "A"][1]
+        w.wire.remove(second)
+        w._deliver(second)        # B holds the middle fragment only: TSN cum+2 is recorded as misordered
         w.wire.clear()
         return w, "B"
     if name == "established-reset-pending":
@@ -484,17 +540,31 @@ def _sctp_task(task, T):
         w.activate()
         kind, val = guarded(deliver)
         sig = None
+        if kind == "hang" or (kind == "ok" and val.done() and isinstance(val.exception(), Hang)):
+            # confirm on a fresh association in the same protocol state
+            if kind == "ok":
+                HANGS["n"] += 1
+            try:
+                w.close()
+            except Exception:
+                pass
+            w, victim = build_state(state)
+            base, v = w.canon(), w.sctp[victim]
+            w.activate()
+            if confirmed_hang(deliver):
+                kind = "hang"
+            else:
+                T.count("slow-but-not-hung")
+                kind, val = "ok", w.loop.create_task(asyncio.sleep(0))
+                w.loop.drain()
         if kind == "hang":
-            sig = ("sctp/hangs", "handling %d bytes did not finish within 0.5 s of CPU" % len(data))
+            sig = ("sctp/hangs", "handling %d bytes did not finish within 10 s of CPU" % len(data))
         elif kind == "raised":
             sig = ("sctp/raises/" + type(val).__name__, "%s: %s escaped the loop" % (type(val).__name__, val))
         else:
             t = val
             if not t.done():
                 pass
-            elif isinstance(t.exception(), Hang):
-                HANGS["n"] += 1
-                sig = ("sctp/hangs", "handling %d bytes did not finish within 0.5 s of CPU" % len(data))
             elif t.exception() is not None:
                 e = t.exception()
                 sig = ("sctp/raises/" + type(e).__name__, "%s: %s out of _handle_data" % (type(e).__name__, e))
@@ -654,13 +724,26 @@ def _rtp_task(task, T):
             return t
         kind, val = guarded(deliver)
         sig = None
+        if kind == "hang" or (kind == "ok" and val.done() and isinstance(val.exception(), Hang)):
+            if kind == "ok":
+                HANGS["n"] += 1
+            try:
+                w.close()
+            except Exception:
+                pass
+            w, _ = fresh(9 if start == "low" else 14)
+            w.wire.clear()
+            tr = w.dtls[dst]
+            if confirmed_hang(deliver):
+                kind = "hang"
+            else:
+                T.count("slow-but-not-hung")
+                kind, val = "ok", w.loop.create_task(asyncio.sleep(0))
+                w.loop.drain()
         if kind == "hang":
-            sig = ("rtp/hangs", "handling %d bytes did not finish within 0.5 s of CPU" % len(data))
+            sig = ("rtp/hangs", "handling %d bytes did not finish within 10 s of CPU" % len(data))
         elif kind == "raised":
             sig = ("rtp/raises/" + type(val).__name__, "%s: %s" % (type(val).__name__, val))
-        elif val.done() and isinstance(val.exception(), Hang):
-            HANGS["n"] += 1
-            sig = ("rtp/hangs", "handling %d bytes did not finish within 0.5 s of CPU" % len(data))
         elif val.done() and val.exception() is not None:
             e = val.exception()
             sig = ("rtp/raises/" + type(e).__name__, "%s: %s out of the transport's handler" % (type(e).__name__, e))
@@ -834,6 +917,10 @@ def run(tier, seed):
         for fam in ("mutate", "boundary") + (("short",) if st in ("established-idle", "server-before-init") or thorough else ()):
             n = 8 if fam != "short" else 4
             tasks += [("sctp_task", (st, fam, p, n)) for p in range(n)]
+        # the same states with the association's TSNs straddling 2^32 (boundary products always, mutations in the thorough tier)
+        if st.startswith("established"):
+            for fam in ("boundary",) + (("mutate",) if thorough or st == "established-outstanding" else ()):
+                tasks += [("sctp_task", (st + "@wrap", fam, p, 8)) for p in range(8)]
     for start in ("low", "wrap"):
         for fam in ("short", "mutate", "boundary"):
             n = 4
@@ -841,15 +928,16 @@ def run(tier, seed):
     total = Tally()
     for fname in ("parsers_task", "sctp_task", "rtp_task"):
         total.merge(pmap("props.c05", fname, [t for f, t in tasks if f == fname], seed=seed))
-    empty_datagram(total)
-    decoder_family(total)
+    budgeted(total, "empty_datagram", empty_datagram, total)
+    budgeted(total, "decoder_family", decoder_family, total)
     return result(
         PID, total,
         rule="families, each enumerated completely: (P) 10 wire parsers x {every truncation, every single-bit flip, every byte "
              "replaced by 00/01/7F/80/FF} of the 42 test fixtures and generated packets, and every byte string of length 0-2 plus "
-             "every string of length 3-8 over {00,01,7F,80,FF}: value or ValueError only, within 0.5 s of CPU; (S) the real "
-             "RTCSctpTransport._handle_data in 7 protocol states (server before INIT, client COOKIE-WAIT, COOKIE-ECHOED, established "
-             "idle / with data outstanding / with a partial message in reassembly / with a stream reset pending): the same mutations "
+             "every string of length 3-8 over {00,01,7F,80,FF}: value or ValueError only, within 1 s of CPU (a hit is confirmed with 10 s on a fresh object before it is reported); (S) the real "
+             "RTCSctpTransport._handle_data in 8 protocol states (server before INIT, client COOKIE-WAIT, COOKIE-ECHOED, established "
+             "idle / with data outstanding / with a partial message in reassembly / with a gap before a held fragment / with a stream reset pending; the established ones "
+             "also with both TSN spaces straddling 2^32): the same mutations "
              "of 17 live packets (right verification tag, checksum RE-SEALED so that they reach chunk processing; every 7th flip also "
              "unsealed) and boundary products for every length, count and offset field (chunk length 0..n+8 and 65535, truncated "
              "bodies, parameter lengths {0,1,3,4,5,8,12,65535}, SACK gap blocks incl. start>end and 300 x 65535, TSNs at +-1 / "
@@ -862,7 +950,7 @@ def run(tier, seed):
              "datagram through _recv_next; (D) the real decoder_worker in a real thread for Opus / PCMU / PCMA / VP8 / H.264 x an "
              "empty, tiny, garbage or oversized frame between valid ones: the worker survives and still ends the track. distinct by construction (a case = (family, position, value))",
         assumptions=["arbitrary byte strings beyond the enumerated families are not covered",
-                     "CPU budget 2 s per datagram (a 1200-byte DATA chunk costs microseconds)"],
+                     "CPU budget 1 s per datagram, 10 s on the confirming re-run (a 1200-byte DATA chunk costs microseconds)"],
         min_distinct=1000)
 
 
